@@ -68,6 +68,7 @@ func execute(wd *worldDef, hist []int, trace func(string, ...interface{})) (res 
 	defer x.Close()
 	s := newSink()
 	s.trace = trace
+	s.minVotes, s.window = w.Gov.EvidenceOptions.MinVotesRequired, w.Gov.EvidenceOptions.BlockVotesDiff
 	prev := stkview.Decode(x.R.Dump())
 	var lastDump []harness.KV
 	changedSets := false
@@ -141,7 +142,7 @@ func execute(wd *worldDef, hist []int, trace func(string, ...interface{})) (res 
 		}
 		s.op = opFor(h)
 		before := stkview.SetText(x.C.NextVals)
-		r, herr := x.Block(b)
+		r, herr := x.BlockAt(b, false, nil) // no digest: the dump is taken below anyway
 		if r == nil {
 			res.out.Err = "no block result"
 			return false
@@ -396,6 +397,14 @@ func replay(path string) int {
 	return 0
 }
 
+func pow(b, e int) float64 {
+	r := 1.0
+	for i := 0; i < e; i++ {
+		r *= float64(b)
+	}
+	return r
+}
+
 // Main is the entry of `vc10 C10 ...`.
 func Main(args []string) int {
 	if explore.IsWorker(prop) {
@@ -412,7 +421,7 @@ func Main(args []string) int {
 	}
 	harness.SilenceStdout()
 	rep := explore.NewReporter(prop, "model_checking", flags, harness.Out())
-	budget := 200 * time.Second
+	budget := 210 * time.Second
 	if flags.Tier == "thorough" {
 		budget = 27 * time.Minute
 	}
@@ -426,6 +435,12 @@ func Main(args []string) int {
 			ws = append(ws, wd)
 		}
 	}
+	// cheap searches first: a world that finishes early leaves its share of the budget to the later ones
+	sort.SliceStable(ws, func(i, j int) bool {
+		ci := pow(len(ws[i].Events), ws[i].Depth[flags.Tier])
+		cj := pow(len(ws[j].Events), ws[j].Depth[flags.Tier])
+		return ci < cj
+	})
 	total := explore.BFSStats{Info: map[string]int64{}, Tags: map[string]int{}, Exhaustive: true}
 	perWorld := map[string]interface{}{}
 	bounds := map[string]interface{}{}
@@ -439,7 +454,7 @@ func Main(args []string) int {
 		var names []string
 		for _, e := range wd.Events {
 			names = append(names, e.Name)
-			if e.HasTx {
+			if e.HasTx && !e.Hostile {
 				kindsWithTx[e.Kind] = true
 			}
 		}
